@@ -929,6 +929,32 @@ func c20Unordered(r *sim.Run) {
 		k := r.Choose(40, "k")
 		keys[k] = k*10 + 1
 	}
+	// shrunk shapes (one run in five): the keys are a window of L consecutive slots (wrapping) of one trie node under the
+	// identity hasher; the collection is built with a few extra slots that are then removed one by one, so the node
+	// sits at exactly L children inside the window (e.g. 16 children, all in slots 16..31) - a shape no constructor gives
+	var extras []int
+	window := r.Bool(1, 5, "shrunkWindow")
+	if window {
+		keys = map[int]int{}
+		L := []int{7, 8, 9, 15, 16, 17, 24}[r.Choose(7, "windowLen")]
+		a := r.Choose(32, "windowStart")
+		lvl := r.Choose(2, "windowLevel")
+		c := r.Choose(32, "windowSub")
+		key := func(slot int) int {
+			if lvl == 1 {
+				return slot*32 + c
+			}
+			return slot
+		}
+		for i := 0; i < L; i++ {
+			k := key((a + i) % 32)
+			keys[k] = k*10 + 1
+		}
+		for i, ne := 0, min(32-L, 1+r.Choose(4, "windowExtra")); i < ne; i++ {
+			extras = append(extras, key((a+L+i)%32))
+		}
+		r.Fault("collection-shrunk-to-a-slot-window")
+	}
 	var ks, vs, kvs []int
 	for k, v := range keys {
 		ks = append(ks, k)
@@ -953,6 +979,10 @@ func c20Unordered(r *sim.Run) {
 		fnHasher{name: "(k%5)<<30 | k%3", f: func(k int) uint32 { return uint32(k%5)<<30 | uint32(k%3) }}}
 	h := hashers[r.Choose(len(hashers), "hasher")]
 	base := r.Choose(16, "ubase")
+	if window {
+		h = fnHasher{name: "identity", f: func(k int) uint32 { return uint32(k) }}
+		base = []int{0, 1, 2, 3}[base%4]
+	}
 	var it fp.Iterator[int]
 	var ref []int
 	desc := ""
@@ -965,6 +995,17 @@ func c20Unordered(r *sim.Run) {
 		}
 	}()
 	im := immutable.Map(h, tuples...)
+	is := immutable.Set(h, ks...)
+	if window {
+		for _, e := range extras {
+			im = im.Updated(e, 5)
+			is = is.Incl(e)
+		}
+		for _, e := range extras {
+			im = im.Removed(e)
+			is = is.Excl(e)
+		}
+	}
 	mm := mutable.MapOf(keys)
 	switch base {
 	case 0:
@@ -974,7 +1015,7 @@ func c20Unordered(r *sim.Run) {
 	case 2:
 		it, ref, desc = im.Values(), vs, "immutable.Map.Values"
 	case 3:
-		it, ref, desc = immutable.Set(h, ks...).Iterator(), ks, "immutable.Set.Iterator"
+		it, ref, desc = is.Iterator(), ks, "immutable.Set.Iterator"
 	case 4:
 		it, ref, desc = kv(mm.Iterator()), kvs, "mutable.Map.Iterator"
 	case 5:
